@@ -134,10 +134,15 @@ func newScriptNumber(v int, desc string) (*scriptEnv, string) {
 	switch parts[0] {
 	case "Z":
 		n = newRoot(v, 2, "i64", big.NewInt(0), big.NewInt(1))
-	case "S":
-		n = newRoot(v, 2, "bigrat", bigOf(parts[1]), bigOf(parts[2]))
-	case "C":
-		n = newRoot(v, 3, "bigrat", bigOf(parts[1]), bigOf(parts[2]))
+	case "S", "Si", "Sr", "Sb", "C", "Ci", "Cr", "Cb":
+		// second letter: which constructor (i: int64, r: int64 fraction, b: *big.Int; none: *big.Rat);
+		// i and b only with denominator 1
+		deg := 2
+		if parts[0][0] == 'C' {
+			deg = 3
+		}
+		ctor := map[string]string{"": "bigrat", "i": "i64", "r": "rat64", "b": "bigint"}[parts[0][1:]]
+		n = newRoot(v, deg, ctor, bigOf(parts[1]), bigOf(parts[2]))
 	case "R":
 		n = newRat(v, bigOf(parts[1]), bigOf(parts[2]))
 	case "T", "TM", "TS", "TE":
